@@ -304,6 +304,8 @@ func checkC04(c *Ctx) {
 	} else {
 		c.Unresolved("R7", "upstream.createClientCalls")
 	}
+	c.Rule("R8", "a connection lost during failover loses no command (shared with C02.R3-R5): the terminal drain covers every queue, runs after the reader returned and the writer was joined, and an enqueue that can race with it re-tests the quit latch")
+	c.withAlias(map[string]string{"R3": "R8", "R4": "R8", "R5": "R8"}, func() { checkQueues(c, runOwn(c)) })
 
 	// ---------------- R4
 	e := runOwn(c)
